@@ -145,7 +145,8 @@ def c05_rules(m):
                     r.ob(ok)
                     if not ok:
                         bad.setdefault("comment|%s" % ch, (ch + rest, got))
-            for text in ("      x = 1", "   10 continue", "     & y + 1", "     1 y", "      call c(1)", "      c = 1", "10    c = *"):
+            for text in ("      x = 1", "   10 continue", "     & y + 1", "     1 y", "      call c(1)", "      c = 1", "10    c = *",
+                         "     ! + 1", "     !y"):
                 r.instances += 1
                 got = run_pred(r, ev, fc, [text, strict, False], "C05.R2")
                 ok = not got or isinstance(got, PE.PyRaise) and False
@@ -182,6 +183,33 @@ def c05_rules(m):
     except PE.Unsupported:
         pass
     out.append(r)
+    # ---------------------------------------------------------------- R8 physical line normalisation
+    r8 = RuleResult("C05.R8", "every physical line is tab-expanded and stripped of trailing blanks before columns are interpreted")
+    r8.floor = 4
+    gsl = m.need_func(RF, "FortranReaderBase.get_single_line")
+    norm = None
+    for n in A.body_nodes(gsl.node):
+        if isinstance(n, ast.Assign) and A.text(n.targets[0]) == "line" and any(
+                isinstance(c, ast.Call) and isinstance(c.func, ast.Attribute) and c.func.attr == "expandtabs" for c in ast.walk(n.value)):
+            norm = n
+    if norm is None:
+        r8.error("get_single_line: the normalisation of the physical line (expandtabs ...) was not found")
+    else:
+        ev8 = evaluator(m, RF)
+        for raw, want in (("      x = 'abc       \n", "      x = 'abc"), ("      x = 1\r\n", "      x = 1"), ("\tx = 1\n", "        x = 1"),
+                          ("   10\tcontinue  \t\n", "   10   continue"), ("      y\xa0= 2 \n", "      y = 2"), ("\n", ""), ("      x = 1", "      x = 1")):
+            r8.instances += 1
+            try:
+                got = ev8.ev(norm.value, {"line": raw})
+            except (PE.Unsupported, PE.PyRaise) as err:
+                r8.error("cannot interpret `%s` (%s)" % (A.text(norm.value), err))
+                break
+            ok = got == want
+            r8.ob(ok, "%r -> %r" % (raw, got))
+            if not ok:
+                r8.fail("normalise|%r" % raw, "get_single_line turns the physical line %r into %r, expected %r: trailing blanks end up inside "
+                        "continued character literals / blank lines are not recognised" % (raw, got, want), m.loc(gsl, norm))
+    out.append(r8)
     # ---------------------------------------------------------------- R5 label conversion
     r = RuleResult("C05.R5", "the fixed-form label conversion is total on the label field (blanks are insignificant) and reads columns 1-5")
     r.floor = 1
